@@ -519,7 +519,10 @@ def gen_render_program(seed, n=6):
     r = random.Random(seed)
     es = []
     vals = []          # (name, kind)
-    fnames = ['a', 'aa', 'ab', 'b', 'B', '_a', 'a1', 'z', 'Z', 'ba', 'a_', 'x9']
+    fnames = ['a', 'aa', 'ab', 'b', 'B', '_a', 'a1', 'z', 'Z', 'ba', 'a_', 'x9',
+              # long names that differ only after 8 / 16 / 32 bytes, and one that is a prefix of another
+              'position_y', 'position_x', 'position_', 'abcdefgh', 'abcdefghi', 'abcdefgha', 'sixteen_bytes_ab_2', 'sixteen_bytes_ab_1', 'sixteen_bytes_ab_10',
+              'a_name_of_more_than_thirty_two_bytes_z', 'a_name_of_more_than_thirty_two_bytes_a']
 
     def atom():
         c = r.random()
@@ -540,7 +543,7 @@ def gen_render_program(seed, n=6):
                     es.append(SIx(V(name), I(r.randint(0, size - 1)), atom()))
             vals.append((name, 'arr'))
         else:
-            fs = r.sample(fnames, r.randint(0, 4))
+            fs = r.sample(fnames, r.randint(0, 4)) if r.random() < 0.6 else r.sample(fnames[12:], r.randint(2, 5))
             parent = atom() if r.random() < 0.6 else N()
             members = [Let(f, atom()) for f in fs]
             if r.random() < 0.3:
